@@ -438,7 +438,7 @@ class NumInterp(Interp):
                     else:
                         raise Unsupported(f'isinstance against {ts}')
                 return res
-            if isinstance(n.func, ast.Attribute) and n.func.attr in ('join', 'split', 'rsplit', 'partition', 'rpartition', 'startswith', 'endswith', 'strip', 'items', 'keys', 'values', 'get', 'index', 'count', 'upper', 'lower', 'format', 'replace',
+            if isinstance(n.func, ast.Attribute) and n.func.attr in ('join', 'split', 'rsplit', 'partition', 'rpartition', 'splitlines', 'startswith', 'endswith', 'strip', 'items', 'keys', 'values', 'get', 'index', 'count', 'upper', 'lower', 'format', 'replace',
                                                                          'removeprefix', 'removesuffix', 'reverse', 'extend', 'zfill', 'rjust', 'ljust', 'copy', 'tolist'):
                 try:
                     recv = self.ev(n.func.value)
@@ -446,7 +446,8 @@ class NumInterp(Interp):
                     recv = None
                 if isinstance(recv, (str, list, tuple, dict)) and hasattr(recv, n.func.attr):
                     args = [self.ev(a) for a in n.args]
-                    return getattr(recv, n.func.attr)(*args)
+                    kwargs = {k.arg: self.ev(k.value) for k in n.keywords if k.arg}
+                    return getattr(recv, n.func.attr)(*args, **kwargs)
             if isinstance(n.func, ast.Attribute) and n.func.attr == 'append' and not (isinstance(n.func.value, ast.Name) and n.func.value.id in ('np', 'numpy')):
                 recv = self.ev(n.func.value)
                 if isinstance(recv, list):
